@@ -101,7 +101,18 @@ func c01Case(t *testing.T, root *vw.Rng, ci int, tr *vw.Trace) {
 	if acked > 0 && failed > 0 {
 		vw.Distinct(fmt.Sprintf("%d/%d/%d/%d", repl, nTS, acked, failed))
 	}
-	_ = tr
+	d.WriteTrace(tr)
+	if ci < 4 {
+		txt := fmt.Sprintf("case %d: repl=%d servers=%d blobs=%d events=%d acked=%d failed=%d;", ci, repl, nTS, nb, len(d.Events), acked, failed)
+		k := 0
+		for _, e := range d.Events {
+			if e.Code == vc.EvStep && e.Mode != vc.ModeDeliver && k < 6 {
+				txt += fmt.Sprintf(" [mode%d %s]", e.Mode, e.RPC)
+				k++
+			}
+		}
+		vw.Sample(txt)
+	}
 }
 
 func TestVerifC01(t *testing.T) {
